@@ -456,6 +456,15 @@ func (v Value) assign(t Type) Value {
 	}
 }
 
+// reassign is assign for a slot whose type is known only from the value it holds (a variable, a struct field): a
+// float64 stays a float64 there, because the slot may be an any that held an integer before
+func (v Value) reassign(t Type) Value {
+	if v.t == TypeFloat64 {
+		return v
+	}
+	return v.assign(t)
+}
+
 func mixType(a, b Type) Type {
 	return a | b
 }
